@@ -159,13 +159,17 @@ static void fingerprint()
     {
     fn2 s = c.tab.at("sqrt"), sa = c.tab.at("sqrt_abacus"), ss = c.tab.at("sqrt_std_math");
     int like_ab = 0, like_std = 0, differ = 0;
-    for(int64_t x = 65536; x < 65536 + 400000 && differ < 64; x += 97)
+    auto probe = [&](int64_t x)
       {
       int64_t ra = sa(x, 0), rs = ss(x, 0);
-      if(ra == rs) continue;
+      if(ra == rs) return;
       ++differ; int64_t r = s(x, 0);
       if(r == ra) ++like_ab; else if(r == rs) ++like_std;
-      }
+      };
+    for(int64_t x = 65536; x < 65536 + 400000 && differ < 64; x += 97) probe(x);
+    // beyond the common domain the two algorithms differ by construction (abacus: NaN from 2^32 on; std: a value), which keeps
+    // the fingerprint meaningful even if both round identically below 2^31
+    for(int64_t x : { (int64_t)1 << 48, ((int64_t)1 << 49) + 1, (int64_t)1 << 50, (int64_t)3 << 54, ((int64_t)1 << 62) + 12345, ((int64_t)1 << 47) + 1, ((int64_t)1 << 47) - 1 }) probe(x);
     if(differ == 0) c.sqrt_algo = -1;
     else if(like_ab == differ) c.sqrt_algo = 1;
     else if(like_std == differ) c.sqrt_algo = 0;
